@@ -67,7 +67,7 @@ def walk_templates(recipe):
 def analyse(recipe):
     """Metadata the oracle needs, derived from the recipe structure only."""
     tables, nick2table, tpl_nick, pickers, names = set(), {}, {}, {}, set()
-    nick_tables, nested_nicks = {}, set()
+    nick_tables, nested_nicks, tpl_jo = {}, set(), set()
     for t, top in walk_templates(recipe):
         tables.add(t["object"])
         names.add(t["object"])
@@ -81,6 +81,8 @@ def analyse(recipe):
         f = t.get("fields") or {}
         if "tpl" in f:
             tpl_nick[f["tpl"]] = t.get("nickname")
+            if t.get("just_once"):
+                tpl_jo.add(f["tpl"])
         for k, v in f.items():
             if isinstance(v, dict) and "random_reference" in v:
                 spec = v["random_reference"]
@@ -93,7 +95,7 @@ def analyse(recipe):
     hostile = (any(len(v) > 1 for v in nick_tables.values()) or bool(set(nick_tables) & tables)
                or bool(nested_nicks - set(nick2table)))
     return {"tables": tables, "nick2table": nick2table, "tpl_nick": tpl_nick, "pickers": pickers,
-            "names": sorted(names), "hostile": hostile}
+            "names": sorted(names), "hostile": hostile, "tpl_just_once": tpl_jo}
 
 
 # ------------------------------------------------------------------ tracing real runs
@@ -427,6 +429,7 @@ def oracle(rep, case, ch):
     for i, r in enumerate(rows):
         index.setdefault((r["table"], r["id"]), i)
     used = {}  # (run, site, parent) -> set of targets
+    last_lo = {}  # (run, site, parent) -> bottom of the last range handed to the unique picker
 
     def viol(sig, what, expected=None, observed=None):
         rep.violation(sig, what, {k: case[k] for k in ("recipe", "parts", "dseed", "forced") if k in case}, expected, observed)
@@ -451,6 +454,14 @@ def oracle(rep, case, ch):
         # scope of uniqueness: the run, the picker field (call site), the parent row named by `parent:`
         key = (ev["run"], ev["field"], tuple(ev["parent"]) if ev["parent"] else None)
         U = used.setdefault(key, set()) if ev["unique"] else set()
+        # did the bottom of the range handed to this unique picker move down (whole-table fallback
+        # after the range had moved up)?
+        moved_down = False
+        if ev["unique"] and ev.get("range"):
+            prev = last_lo.get(key)
+            moved_down = prev is not None and ev["range"][0] < prev
+            if ev["ok"] or not moved_down:
+                last_lo[key] = ev["range"][0]
         if not ev["ok"]:
             exc, msg = ev["exc"], ev.get("msg", "")
             if ev["unique"] and exc in ("StopIteration", "AssertionError") and ev.get("range") is not None:
@@ -458,13 +469,20 @@ def oracle(rep, case, ch):
                 if free and not (is_nick and meta["hostile"]):
                     kind = "exhausted-early" if exc == "StopIteration" else "internal-AssertionError"
                     q = ooo
-                    if not q and not cur and all(r["run"] < ev["run"] for r in free):
+                    if not q and exc == "AssertionError" and moved_down:
+                        q = ":range-bottom-moved-down"
+                    elif not q and not cur and all(r["run"] < ev["run"] for r in free):
                         q = ":earlier-run-rows-not-resaved"
                     viol(f"C10:unique-{kind}{q}",
                          f"{where} (unique) failed with {exc} {msg} although unused eligible targets exist",
                          [[r["table"], r["id"]] for r in free], exc)
             elif eligible and not meta["hostile"] and exc in ("DataGenError", "AssertionError") and ev["scope"] in (CUR, PRIOR):
-                viol(f"C10:pick-fails-although-eligible{ooo}", f"{where} failed ({exc}: {msg}) although eligible rows exist",
+                q = ooo
+                # just_once rows must be known after a continuation; ordinary nicknamed rows of an
+                # earlier run are not (finding D52)
+                if not q and is_nick and all(r["run"] < ev["run"] and r["tpl"] not in meta["tpl_just_once"] for r in eligible):
+                    q = ":nickname-rows-of-earlier-run-unknown"
+                viol(f"C10:pick-fails-although-eligible{q}", f"{where} failed ({exc}: {msg}) although eligible rows exist",
                      [[r["table"], r["id"]] for r in eligible], msg)
             continue
         tgt = (ev["table"], ev["id"])
@@ -715,7 +733,7 @@ class Gen:
     def recipe(self):
         rng = self.rng
         layout = rng.choice(["table", "nick", "multi", "forward", "nested", "just_once", "unique_counts",
-                             "unique_growth", "parent", "resave", "mixed", "mixed", "mixed"])
+                             "unique_growth", "parent", "resave", "varying", "varying", "mixed", "mixed", "mixed"])
         self.features.add("layout:" + layout)
         rec = []
         if layout == "table":
@@ -783,6 +801,33 @@ class Gen:
             rec.append(self.picker())
             if rng.random() < 0.4:
                 rec.insert(rng.randint(0, 1), self.picker(to=rng.choice(["T", "n"])))
+        elif layout == "varying":
+            # the number of new targets per iteration varies, INCLUDING ZERO (count formula over a
+            # one-row-per-iteration Tick table); unique pickers live across all iterations, with more
+            # picks than fresh targets in some iterations: the eligible range grows, moves up, and
+            # falls back to the whole table (bottom moves down) within one picker's life
+            self.n_iter = rng.randint(3, 5)
+            counts = [rng.choice([0, 0, 1, 2, 3]) for _ in range(self.n_iter)]
+            if rng.random() < 0.7:
+                counts[0] = rng.choice([1, 2, 3])
+                counts[rng.randint(2, self.n_iter - 1)] = 0
+            expr = "0"
+            for i in range(self.n_iter - 1, -1, -1):
+                expr = f"({counts[i]} if Tick.id == {i + 1} else {expr})"
+            rec.append({"object": "Tick"})
+            nk = rng.choice([None, None, "n"])
+            if rng.random() < 0.25:
+                rec.append(self.target("T", nk, just_once=True, count=rng.choice([1, 2])))
+            self.tpl += 1
+            t = {"object": "T", "count": "${{ %s }}" % expr, "fields": {"tpl": self.tpl}}
+            if nk:
+                t["nickname"] = nk
+            rec.append(t)
+            self.declared += ["T"] + ([nk] if nk else [])
+            rec.append(self.picker(to=nk or "T", unique=True, count=rng.choice([1, 1, 2, 3]), nfields=1))
+            if rng.random() < 0.3:
+                rec.append(self.picker(to="T", unique=rng.random() < 0.6, count=rng.choice([1, 2]), nfields=1))
+            self.features.add("varying:zero-after-move" if any(c == 0 for c in counts[2:]) and sum(1 for c in counts if c) >= 2 else "varying:other")
         elif layout == "resave":
             # several just_once rows over two tables, by nickname and by table name, equal ids across
             # tables (what `resave_objects_from_continuation` must de-duplicate by (table, id))
@@ -838,6 +883,9 @@ def gen_case(rng):
     rec = g.recipe()
     k = rng.randint(1, 4)
     parts = common_compositions(k, rng) if rng.random() < 0.45 else [k]
+    if "layout:varying" in g.features:
+        k = g.n_iter
+        parts = [k] if rng.random() < 0.8 else common_compositions(k, rng)
     if "layout:resave" in g.features and len(parts) < 2:
         parts = [1] + common_compositions(rng.randint(1, 3), rng)
     if len(parts) > 1:
@@ -915,7 +963,7 @@ def run(ctx, rep, findings):
         "recipes built from layouts {target by table, by nickname, several templates feeding one table, "
         "forward-reserved ids, nested/friend placement (picker friend of target, target in wrapper, target as friend, "
         "picker nested, same-table nesting), just_once targets, unique with (targets, pickers) in 0..6 incl. "
-        "pickers = targets and targets + 1, unique with growth inside an iteration, unique per parent, mixed} x 1-4 "
+        "pickers = targets and targets + 1, unique with growth inside an iteration, unique per parent, varying number of new targets per iteration incl. zero (Tick-driven count formulas), re-save layouts, mixed} x 1-4 "
         "iterations x continuation compositions; every draw chosen by the harness (both ends forced 25% each). "
         "Non-trivial: at least one successful pick and >= 2 emitted rows. Distinct = distinct (recipe, parts, draw seed)."
     )
